@@ -47,6 +47,10 @@ pub struct RunCfg {
 }
 
 impl RunCfg {
+    /// like `cases` but without rounding up to one case per worker (for very expensive cases)
+    pub fn cases_few(&self, quick: u64, thorough: u64) -> u64 {
+        ((self.tier.pick(quick, thorough) as f64 * self.scale) as u64).max(1)
+    }
     pub fn cases(&self, quick: u64, thorough: u64) -> u64 {
         let n = self.tier.pick(quick, thorough) as f64 * self.scale;
         (n as u64).max(self.workers as u64)
@@ -156,7 +160,7 @@ where
     MS: Fn() -> S + Sync,
     F: Fn(&C, &mut Stats) -> Result<(), String> + Sync,
 {
-    let workers = cfg.workers.max(1);
+    let workers = cfg.workers.max(1).min(total.max(1) as usize);
     let per = (total + workers as u64 - 1) / workers as u64;
     let stop = AtomicBool::new(false);
     let merged = Mutex::new(Stats::default());
